@@ -4,11 +4,11 @@ from vlib import *
 import miniproto_gen as G
 
 ID = "C01"
-COQ_FILES = G.COQ_MODEL_FILES + ["Proofs/ValidateRanges.v", "Proofs/LowerNames.v", "Proofs/Validate.v", "Proofs/ValidateJson.v", "Proofs/ValidateBasic.v", "Props/C01.v"]
+COQ_FILES = G.COQ_MODEL_FILES + ["Proofs/ValidateRanges.v", "Proofs/LowerNames.v", "Proofs/Validate.v", "Proofs/ValidateJson.v", "Proofs/ValidateBasic.v", "Proofs/ExtDecl.v", "Props/C01.v"]
 PROPS = "Props/C01.v"
 THEOREMS = ["C01_ranges_overlap_sorted_iff", "C01_enum_ranges_overlap_sorted_iff", "C01_cross_overlap_iff",
             "C01_tag_in_range_iff", "C01_enum_number_in_range_iff", "C01_check_tag_iff", "C01_range_bounds_iff",
-            "C01_validate_message_iff", "C01_validate_enum_iff", "C01_validate_field_iff", "C01_validate_basic_iff", "C01_json_compliant_iff",
+            "C01_validate_message_iff", "C01_validate_enum_iff", "C01_validate_field_iff", "C01_validate_basic_iff", "C01_extension_range_lookup_iff", "C01_json_compliant_iff",
             "C01_protoc_json_compliant_iff", "C01_json_go_eq_protoc_compliant", "C01_json_go_stricter_proto2"]
 AXIOMS_OK = []
 TRUSTED = [
